@@ -71,3 +71,10 @@ pub fn h_skeletons() {
     let name = sym::any_str("name", "set:abc-1", 0, sym::bound(4, 5));
     check_pattern(&p, &name);
 }
+
+/// brace structure alone: strings over '{', '}', ',' and one letter, longer than h_any can afford
+pub fn h_nesting() {
+    let p = sym::any_str("p", "set:{}a", 1, sym::bound(7, 9));
+    let name = ["a", "aa", ""][sym::choose("name", 3)];
+    check_pattern(&p, name);
+}
